@@ -163,14 +163,36 @@ func clex(src string) ([]ctok, error) {
 	return out, nil
 }
 
-var cBuiltinType = regexp.MustCompile(`^(metal::)?((packed_)?(bool|int|uint|float|half|double|long|ulong|short|ushort|char|uchar)([2-4](x[2-4])?)?|void|[biud]?vec[2-4]|d?mat[2-4](x[2-4])?|atomic_int|atomic_uint|ByteAddressBuffer|RWByteAddressBuffer|size_t)$`)
+var cBuiltinType = regexp.MustCompile(`^(metal::)?((packed_)?(bool|int|uint|float|half|double|long|ulong|short|ushort|char|uchar|int64_t|uint64_t|float16_t)([2-4](x[2-4])?)?|void|[biud]?vec[2-4]|d?mat[2-4](x[2-4])?|atomic_int|atomic_uint|ByteAddressBuffer|RWByteAddressBuffer|size_t)$`)
 
-var cQuals = map[string]bool{
-	"static": true, "const": true, "groupshared": true, "constant": true, "shared": true, "uniform": true,
-	"readonly": true, "writeonly": true, "volatile": true, "row_major": true, "column_major": true, "device": true, "thread": true,
-	"threadgroup": true, "inout": true, "out": true, "in": true, "coherent": true, "restrict": true, "kernel": true,
-	"vertex": true, "fragment": true, "highp": true, "mediump": true, "lowp": true, "precise": true, "flat": true,
-	"smooth": true, "noperspective": true, "nointerpolation": true, "buffer": true, "constexpr": true, "inline": true,
+// qualifier words per dialect (a word that qualifies declarations in one language is an ordinary identifier in another)
+var cQualsBy = map[string]map[string]bool{
+	"hlsl": set("static", "const", "groupshared", "uniform", "volatile", "row_major", "column_major", "inout", "out", "in", "precise",
+		"nointerpolation", "linear", "centroid", "noperspective", "inline", "globallycoherent"),
+	"msl": set("static", "const", "constant", "device", "thread", "threadgroup", "kernel", "vertex", "fragment", "volatile", "constexpr", "inline"),
+	"glsl": set("const", "shared", "uniform", "readonly", "writeonly", "volatile", "coherent", "restrict", "inout", "out", "in", "highp", "mediump",
+		"lowp", "precise", "flat", "smooth", "noperspective", "buffer", "invariant", "centroid"),
+}
+
+func set(ws ...string) map[string]bool {
+	m := map[string]bool{}
+	for _, w := range ws {
+		m[w] = true
+	}
+	return m
+}
+
+// cQuals is the table of the dialect being parsed (set by cparseN; the harness parses one text at a time).
+var cQuals = cQualsBy["hlsl"]
+
+func dialectOfText(src string) string {
+	switch {
+	case strings.Contains(src, "metal_stdlib"):
+		return "msl"
+	case strings.Contains(src, "#version"):
+		return "glsl"
+	}
+	return "hlsl"
 }
 
 func (p *cparser) isType(s string) bool { return cBuiltinType.MatchString(s) || p.types[s] }
@@ -838,6 +860,13 @@ func (p *cparser) postfix(e string) string {
 		case p.is("."):
 			p.adv()
 			name := p.ident()
+			if p.is("<") && p.peek(1).k == 'i' && p.isType(p.peek(1).s) && p.peek(2).s == ">" && p.peek(3).s == "(" {
+				// templated method: buf.Load<int64_t>(addr)
+				p.adv()
+				tn := p.ident()
+				p.adv()
+				name = name + "<" + tn + ">"
+			}
 			if p.is("(") {
 				e = sx("mcall", append([]string{e, q(name)}, p.args()...)...)
 			} else {
@@ -958,6 +987,7 @@ func cparseN(src string) (string, int, error) {
 	if err != nil {
 		return "", 0, err
 	}
+	cQuals = cQualsBy[dialectOfText(src)]
 	p := &cparser{toks: toks, types: map[string]bool{}}
 	u := p.unit()
 	if p.err != nil {
